@@ -169,6 +169,26 @@ def verify(interp, target, timeout_ms=10000, verbose=False, only=None):
                   so = ctx["self"]
                   extra = sorted(a for (oid, lbl, a) in act.writes if oid == so.oid and a not in c.modifies)
                   results.append(Result(f"{target}.frame.modifies", smt.Verdict("proved" if not extra else "refuted", "frame-log", 0.0, detail=f"unlisted writes: {extra}" if extra else ""), tag, {"unlisted_writes": extra}))
+    # ---- contract self-consistency: what CALLERS are told (`returns`) must satisfy what is PROVED about the body (`ensures`)
+    if c.returns is not None and c.effects is None and c.ensures:
+        for scen_name, scen_setup in c.scenarios:
+            if scen_setup is None or (only and not any(scen_name.startswith(o) for o in only)): continue
+            try:
+                interp.reset_path([]); interp.verifying = target; A.SIDE.clear(); A._unravel_cache.clear()
+                ctx = scen_setup(interp); install_loop_rule(interp, lambda ctx=ctx: ctx); install_scan_rule(interp, lambda ctx=ctx: ctx); install_scatter_rule(interp)
+                f = interp.get_func(target)
+                if ctx.get("self") is not None: f = f.bind(ctx["self"])
+                _, bound = interp.bind_args(f, ctx.get("_args", []), ctx.get("_kwargs", {}))
+                if c.requires is not None: interp.assume(c.requires(Ctx(ctx, **bound), Q("assume")))
+                ret = c.returns(Ctx(bound))
+                cx = Ctx(ctx, result=ret, old={})
+                for name, clause in c.ensures.items():
+                    if "CANARY" in name: continue
+                    qg = Q("goal"); g = clause(cx, qg)
+                    discharge(f"contract.returns_satisfies.{name}", list(interp.pc) + qg.hyps + list(A.SIDE), g, f"{scen_name}contract", {})
+            except (PyRaise, EngineError, PathEnd, PreFailed, KeyError, AttributeError, TypeError) as ex:
+                results.append(Result(f"{target}.contract.returns_evaluable", smt.Verdict("unknown", "z3", 0.0, detail=f"returns/ensures not evaluable on the pre-state: {type(ex).__name__}: {ex}"), f"{scen_name}contract", {"skipped": True}))
+            break          # one scenario suffices: returns is the same function in all of them
     interp.last_counts = {"paths": npaths, "pruned": pruned}
     return results, npaths
 
